@@ -6,7 +6,7 @@ import json, os, random, collections, hashlib
 from vlib import *
 
 ALL_BAD = {"flip", "drop", "add", "random", "short"}
-ALL_AUTH = {"badsig", "badtext", "unknownkey", "peercp", "wrongorigin", "nosig", "hashflip", "garbage", "truncated", "lineedit", "peerkey", "witonly"}
+ALL_AUTH = {"badsig", "badtext", "unknownkey", "peercp", "wrongorigin", "nosig", "hashflip", "garbage", "truncated", "lineedit", "peerkey", "witonly", "trailingblank"}
 
 
 def consts(**kw):
